@@ -794,7 +794,6 @@ func (ex *Exec) sprintf(format *Str, args []Value) Value {
 	if format.K != strConc {
 		ex.fail("fmt.Sprintf with non-constant format")
 	}
-	verbs := parseVerbs(format.C)
 	// fully concrete arguments: use the real formatter
 	goArgs := make([]interface{}, 0, len(args))
 	allConc := true
@@ -809,39 +808,9 @@ func (ex *Exec) sprintf(format *Str, args []Value) Value {
 	if allConc {
 		return ex.concStr(fmt.Sprintf(format.C, goArgs...))
 	}
-	// only plain %s / %v / %d verbs: build a rope
-	simple := len(verbs) == len(args)
-	for _, vb := range verbs {
-		if vb != 's' && vb != 'v' && vb != 'd' {
-			simple = false
-		}
-	}
-	if simple && !strings.Contains(strings.ReplaceAll(format.C, "%s", ""), "%") || simple && plainVerbs(format.C) {
-		var res Value = ex.concStr("")
-		rest := format.C
-		ok := true
-		for _, a := range args {
-			i := strings.IndexByte(rest, '%')
-			piece := rest[:i]
-			rest = rest[i+2:]
-			res = ex.strConcat(res.(*Str), ex.concStr(piece))
-			var s *Str
-			if iv, isI := a.(*Iface); isI && iv != nil {
-				if sv, isS := iv.V.(*Str); isS {
-					s = sv
-				} else if g, isG := ex.toGo(a); isG {
-					s = ex.concStr(fmt.Sprint(g))
-				}
-			}
-			if s == nil {
-				ok = false
-				break
-			}
-			res = ex.strConcat(res.(*Str), s)
-		}
-		if ok {
-			return ex.strConcat(res.(*Str), ex.concStr(rest))
-		}
+	// a rope of literal text and formatted arguments (strings, integers)
+	if res, ok := ex.sprintfRope(format.C, args); ok {
+		return res
 	}
 	return ex.freshAtom("fmt.Sprintf")
 }
@@ -1087,4 +1056,93 @@ func (ex *Exec) errorsAs(errV, targetV Value) Value {
 	}
 	e, _ := errV.(*Iface)
 	return tb.Bool(walk(e, 0))
+}
+
+
+// sprintfRope handles %s %v %d %x %q-free formats with optional zero padding for integers.
+func (ex *Exec) sprintfRope(f string, args []Value) (Value, bool) {
+	var res Value = ex.concStr("")
+	ai := 0
+	lit := ""
+	flush := func() {
+		if lit != "" {
+			res = ex.strConcat(res.(*Str), ex.concStr(lit))
+			lit = ""
+		}
+	}
+	for i := 0; i < len(f); i++ {
+		if f[i] != '%' {
+			lit += string(f[i])
+			continue
+		}
+		i++
+		if i >= len(f) {
+			return nil, false
+		}
+		if f[i] == '%' {
+			lit += "%"
+			continue
+		}
+		zero := false
+		width := 0
+		if f[i] == '0' {
+			zero = true
+			i++
+		}
+		for i < len(f) && f[i] >= '0' && f[i] <= '9' {
+			width = width*10 + int(f[i]-'0')
+			i++
+		}
+		if i >= len(f) || ai >= len(args) {
+			return nil, false
+		}
+		verb := f[i]
+		iv, _ := args[ai].(*Iface)
+		ai++
+		if iv == nil || iv.NilC != nil {
+			return nil, false
+		}
+		flush()
+		switch x := iv.V.(type) {
+		case *Str:
+			if (verb != 's' && verb != 'v') || width != 0 || x.K == strAtom {
+				return nil, false
+			}
+			res = ex.strConcat(res.(*Str), x)
+		case *smt.Term:
+			if x.S.K != smt.KBV {
+				return nil, false
+			}
+			_, signed, isInt := typeWidth(iv.Typ)
+			if !isInt {
+				return nil, false
+			}
+			base := 10
+			switch verb {
+			case 'd', 'v':
+			case 'x':
+				base = 16
+			default:
+				return nil, false
+			}
+			if signed && !x.IsConst() {
+				// symbolic signed values: only when known non-negative
+				if ex.ivalOf(x).hi.BitLen() >= x.S.W {
+					return nil, false
+				}
+			}
+			s, ok := ex.fmtInt(x, signed, base, width, zero).(*Str)
+			if !ok || s.K == strAtom {
+				return nil, false
+			}
+			res = ex.strConcat(res.(*Str), s)
+		default:
+			return nil, false
+		}
+	}
+	flush()
+	if ai != len(args) {
+		return nil, false
+	}
+	return res, true
 }
